@@ -124,15 +124,34 @@ CLAIMED = {
              "gen_compose_abrm_hp_code / gen_compose_blochsim_code (simulating w1 ++ w2 is the SU(2) product, with the code's own "
              "final rephasing: hp/bs_frame_exponents, zf^2 prod z = 1 proved from the source's exponents), abrm_balanced_norm; "
              "ab2rf_inverts_forward and ab2rf_inverts_forward_code (for every pulse length, peeling the polynomial pair built by the "
-             "forward SLR recursion returns the pulses exactly, with the code's own c_j formula). Tie: translator (fail-closed) + real "
-             "simulators vs the exact Gaussian-rational run of the generated simulation on per-sample atoms (1e-12), ab2rf vs exact "
-             "(c_j, s_j) on Pythagorean pairs.",
+             "forward SLR recursion returns the pulses exactly, with the code's own c_j formula); gen_unitary_abrm_balanced (time loop "
+             "+ rewinder). Props/C19Slr - hard-pulse simulation IS the forward SLR recursion and ab2rf its two-sided inverse, in the "
+             "source's conventions (abrm_hp: b <- b z with z = exp(-1j(x g + dom0dt)), a' = aC - b conj S, b' = aS + bC, S = 1j "
+             "e^{i angle rf} sin(|rf|/2), final zf; ab2rf's arrays are a_slr = reverse(conj A), b_slr = 1j reverse(conj B), (cj, sj) "
+             "= (C, -1j S)): hpPoly_eval / blochsim_hpPoly_eval (the generated abrmHpSim / blochsimSim from (1,0) at gradient phase "
+             "z equal zf (A(z), B(z)) resp. zf (A(z), z B(z)) for EVERY complex z, (A, B) = coefficient lists hpPoly of the "
+             "recursion A_j = C_j A_{j-1} - conj(S_j) z B_{j-1}, B_j = S_j A_{j-1} + C_j z B_{j-1}), hpPoly_length (exactly n "
+             "coefficients: degree < n), hpPoly_eval_code (with the generated exponents: |z| = |zf| = 1, zf^2 z^Nt = 1), hpPoly_unit_circle (|A|^2+|B|^2 = 1 on |z| = 1) and hpPoly_paraconj_identity / "
+             "circle_id_poly (the same as an identity in C[X]: A A~ + B B~ = X^{n-1}, via infinitely many roots), toSlr_hpPoly "
+             "(the simulation's polynomials written as ab2rf's arrays are the forward recursion fwdRev), ab2rf_hp_roundtrip "
+             "(ab2rf o forward = id: for ANY hard-pulse train with |rf| < pi the backward recursion with the code's sqrt formula, "
+             "generated sj and peel returns every sample's (cos(|rf|/2), e^{i angle rf} sin(|rf|/2))), ab2rf_sample_rf (2 "
+             "arctan2(|sj|, cj) e^{i angle sj} is then rf itself), peel_inverts / forward_ab2rf (forward o ab2rf = id: for ANY pair "
+             "of n >= 1 coefficients each with |a|^2+|b|^2 = 1 on the unit circle and real positive a[n-1], ab2rf emits valid "
+             "rotations and the forward recursion rebuilds (a, b) exactly) and forward_ab2rf_sim (so the generated abrm_hp of the "
+             "recovered pulse has the polynomials toSlr(a, b)). Tie: translator (fail-closed) + real simulators vs the exact "
+             "Gaussian-rational run of the generated simulation on per-sample atoms (1e-12, abrm also with balanced=True), ab2rf vs "
+             "exact (c_j, s_j) on Pythagorean pairs, real abrm_hp / blochsim with a constant gradient at dyadic positions vs the "
+             "model's exact polynomial evaluation zf (A(z), B(z)) (1e-12) and the real ab2rf on the model's pair vs the pulse (1e-6).",
         note="Trusted: Lean kernel; translator gen_c19; the atom-defining statements (om, phi, n, normfact) are only checked not to "
              "read the state - their content and the unit-axis hypothesis nx^2+ny^2+nz^2 = 1 are tied by the correspondence (the "
-             "code's +eps makes it inexact anyway); NOT proved: that the forward recursion is the polynomial hard-pulse simulation "
-             "evaluates on the unit circle (round-trip oracle), b2a / mag2mp / dzrf (numerical: round-trip oracle only, 1e-6 on exact "
-             "pairs, 1e-3 through b2a), blochsim's n-D x @ g read as 1-D; float rounding not modelled.",
-        technique="Lean 4 proof (SU(2) norm identity, induction over waveform, inverse-SLR peeling) over translator-generated simulators",
+             "code's +eps makes it inexact anyway); np.arctan2(y, x) / np.angle / np.sqrt / np.abs are read as arg(x + iy) / arg / real "
+             "sqrt / modulus; the SLR polynomial theorems are about the two hard-pulse simulators (abrm / abrm_nd / abrm_ptx rotate "
+             "about the tilted axis in one step: their Cayley-Klein parameters are not polynomials in z) under the constant-gradient "
+             "hypothesis (the same z for all samples); NOT proved: b2a / mag2mp / dzrf (numerical: round-trip oracle only, 1e-6 on "
+             "exact pairs, 1e-3 through b2a), blochsim's n-D x @ g read as 1-D; float rounding not modelled (the float backward "
+             "recursion is ill-conditioned for long trains of near-pi pulses: oracle restricted to prod cos(|rf|/2) not tiny).",
+        technique="Lean 4 proof (SU(2) norm identity, induction over waveform, forward SLR recursion = hard-pulse simulation, inverse-SLR peeling both ways) over translator-generated simulators",
         design="DESIGN.md §3 C19, §9"),
     "C20": dict(
         text="Lean 4 theorems over R about the formulas the translator extracts from trap_grad / min_trap_grad (Gen/TrapGrad.lean: "
